@@ -1788,3 +1788,97 @@ func gateWaitsOnlyForPersistence(c *Ctx, id string) {
 		c.Check(len(ops) == 0, id, "gate-waits@"+fname(g), g.Pos(), "the gate waits for the persistence condition only (a sleeping poll)", "the observer's gate can wait for something other than the persistence condition ("+strings.Join(ops, ", ")+"): it runs on the client library's read loop, where a wait that is never released stalls every stream of the connection and a second release (close of a closed channel) panics")
 	}
 }
+
+// rebalanceStartBeforeArm (C11): lifecycle callbacks are bracketed: the function that arms the re-open (time.AfterFunc)
+// has announced the start of the rebalance before — with a zero delay (dynamic membership) the re-open callback runs at
+// once on its own goroutine and announces the end.
+func rebalanceStartBeforeArm(c *Ctx, id string) {
+	w := c.W
+	n := 0
+	for _, rb := range w.implsOf("stream", "Stream", "Rebalance") {
+		c.see(rb)
+		var arms, starts []ssa.Instruction
+		for _, f := range withAnon(rb) {
+			allInstrs(f, func(in ssa.Instruction) {
+				cc := callOf(in)
+				if cc == nil {
+					return
+				}
+				if strings.HasSuffix(calleeName(cc), "time.AfterFunc") {
+					// the debounce arm re-schedules the rebalance itself (no callbacks yet); the re-open is the other one
+					if cb := closureOf(cc.Args[len(cc.Args)-1]); cb != rb {
+						arms = append(arms, in)
+					}
+				}
+				if cc.IsInvoke() && cc.Method.Name() == "AfterRebalanceStart" {
+					starts = append(starts, in)
+				}
+			})
+		}
+		for _, a := range arms {
+			n++
+			ok := false
+			for _, s := range starts {
+				if dominatesInstr(s, a) {
+					ok = true
+				}
+			}
+			c.Check(ok, id, "start-before-arm@"+fname(rb), a.Pos(), "AfterRebalanceStart is announced before the re-open is armed", "the re-open is armed before AfterRebalanceStart is announced: with a zero delay the re-open's callbacks (BeforeRebalanceEnd … AfterRebalanceEnd) run first — the lifecycle callbacks are no longer bracketed")
+		}
+	}
+	if n == 0 {
+		c.Undecided(id, "start-before-arm", 0, "no time.AfterFunc in the implementation of Stream.Rebalance (the re-open was armed there when this rule was written)")
+	}
+}
+
+// observerStateSetters (C03, C08): the catch-up filter drops events. It is armed in one place only — the completion of
+// the re-request that follows a server-requested rollback, with the position the refused request asked for — and the
+// branch id of an observer is set only where a stream request was confirmed. A second place that arms the filter
+// (at Open, "to be safe") removes events nobody has seen.
+func observerStateSetters(c *Ctx, id string) {
+	w := c.W
+	for _, m := range []string{"SetCatchup", "SetVbUUID"} {
+		n := 0
+		var bad []string
+		var at ssa.Instruction
+		for _, fn := range w.ModFuncs {
+			allInstrs(fn, func(in ssa.Instruction) {
+				cc := callOf(in)
+				if cc == nil || !cc.IsInvoke() || cc.Method.Name() != m || !strings.HasSuffix(shortType(cc.Value.Type()), "Observer") {
+					return
+				}
+				n++
+				c.CallSites++
+				root := rootFn(fn)
+				// inside the completion callback of a DCP OpenStream request of the client
+				inCompletion := false
+				if fn.Parent() != nil {
+					allInstrs(fn.Parent(), func(x ssa.Instruction) {
+						c2 := callOf(x)
+						if c2 == nil || !strings.HasSuffix(calleeName(c2), "DCPAgent).OpenStream") {
+							return
+						}
+						for _, a := range c2.Args {
+							if closureOf(a) == fn {
+								inCompletion = true
+							}
+						}
+					})
+				}
+				if !inCompletion || root.Signature.Recv() == nil || recvTypeName(root.Signature.Recv().Type()) != "client" {
+					bad = append(bad, fmt.Sprintf("%s @%s", fname(fn), w.pos(in.Pos())))
+					at = in
+				}
+			})
+		}
+		construct := "observer-setter:" + m
+		switch {
+		case n == 0:
+			c.Undecided(id, construct, 0, "no call of Observer.%s found", m)
+		case len(bad) == 0:
+			c.OK(id, construct, 0, "Observer.%s is called only from the completion of the client's stream requests (%d sites)", m, n)
+		default:
+			c.Fail(id, construct, at.Pos(), "Observer.%s is called outside the completion of a stream request (%s): the observer's filter / branch id no longer follows what the server answered", m, strings.Join(bad, "; "))
+		}
+	}
+}
